@@ -59,6 +59,35 @@ func (c reservedCase) scenario() imps.Scenario {
 	return sc
 }
 
+type manyCase struct {
+	Base   string `json:"base"`
+	N      int    `json:"n"`
+	Prefix string `json:"prefix"`
+	Hint   bool   `json:"hint"` // every second path gets the name through ImportName instead of its last element
+}
+
+func (c manyCase) scenario() imps.Scenario {
+	sc := imps.Scenario{File: recipe.File{Ctor: "NewFile", Args: []recipe.Text{"p"}}}
+	for i := 0; i < c.N; i++ {
+		if c.Hint && i%2 == 1 {
+			p := fmt.Sprintf("h%d.example/other%d", i, i)
+			sc.Paths = append(sc.Paths, p)
+			sc.File.Ops = append(sc.File.Ops, recipe.FileOp{Op: "ImportName", Args: []recipe.Text{recipe.Text(p), recipe.Text(c.Base)}})
+			continue
+		}
+		sc.Paths = append(sc.Paths, fmt.Sprintf("m%d.example/%s", i, c.Base))
+	}
+	if c.Prefix != "" {
+		sc.File.Ops = append(sc.File.Ops, recipe.FileOp{Op: "PackagePrefix", Args: []recipe.Text{recipe.Text(c.Prefix)}})
+	}
+	var vals []*recipe.Node
+	for i, p := range sc.Paths {
+		vals = append(vals, recipe.Qual(p, fmt.Sprintf("S%d", i)))
+	}
+	sc.File.Body = []*recipe.Node{recipe.S().C("Var").C("Id", "_").C("Op", "=").C("Index").C("Interface").C("Values", vals)}
+	return sc
+}
+
 func TestC05(t *testing.T) {
 	r := hx.Start(t, "C05")
 	defer r.Finish(t)
@@ -81,6 +110,22 @@ func TestC05(t *testing.T) {
 		}
 		r.ClassN("exhaustive_reserved_cases", n)
 		r.Exhaustive(fmt.Sprintf("all %d keywords and universe names x 5 modes x 4 prefixes", len(imps.Reserved())))
+	}
+
+	// (a') count thresholds: 2..70 paths that all want the same name (the k-th one gets the suffix
+	// k-1: int8, int16, uint32, float32, complex64 are reserved words that suffixing can produce)
+	ckM := hx.Check[manyCase]{Name: "many_same_base", Fn: func(c manyCase) error { return check(c.scenario()) }}
+	if !hx.Replay(r, ckM) && r.Shard == 0 {
+		for _, base := range []string{"int", "uint", "float", "complex", "d", "rune1", "x_"} {
+			for _, prefix := range []string{"", "pkg"} {
+				for _, n := range []int{2, 7, 8, 9, 16, 17, 31, 32, 33, 63, 64, 65, 70} {
+					c := manyCase{Base: base, N: n, Prefix: prefix, Hint: n%2 == 0}
+					hx.One(r, ckM, c)
+					r.NonTrivial(fmt.Sprintf("%+v", c))
+				}
+			}
+		}
+		r.Class("many_same_base")
 	}
 
 	profiles := []struct {
